@@ -1,6 +1,7 @@
 package main
 
 import (
+	"go/types"
 	"encoding/json"
 	"flag"
 	"fmt"
@@ -321,6 +322,67 @@ func runCheck(P *Program, DB *ContractDB, prop, tier string, only string) *check
 				}
 			}
 			addRep(VerifyCallSites(P, DB, cs, prop))
+		}
+	}
+	// guarded fields: every module function that reads or writes one is verified
+	// (with an implicit empty contract unless it has one for this property)
+	for _, key := range sortedKeys(DB.Guarded) {
+		gd := DB.Guarded[key]
+		if !hasProp(gd.Props) {
+			continue
+		}
+		for _, fname := range guardedOwners(P, gd) {
+			if only != "" && !strings.Contains(fname, only) {
+				continue
+			}
+			if k := DB.Funcs[fname]; k != nil {
+				if k.hasProp(prop) {
+					continue // verified through its own contract
+				}
+			}
+			if verifiedImplicit[fname] {
+				continue
+			}
+			verifiedImplicit[fname] = true
+			saved := DB.Funcs[fname]
+			k := &FuncContract{Kind: "func", Name: fname, Pkg: pkgOfQual(fname), Props: []string{prop}, Flags: map[string]bool{"implicit": true}, Loops: map[int]*LoopSpec{}, ModAll: true, HasMod: true}
+			if saved != nil {
+				// keep the preconditions of an existing contract (e.g. "caller holds the lock")
+				k.Requires = saved.Requires
+				k.Params = saved.Params
+				k.Flags = map[string]bool{"implicit": true}
+				for f, v := range saved.Flags {
+					k.Flags[f] = v
+				}
+				k.Lets = saved.Lets
+			}
+			DB.Funcs[fname] = k
+			var rep *FuncReport
+			func() {
+				defer func() {
+					if r := recover(); r != nil {
+						res.errors = append(res.errors, fmt.Sprintf("engine-error in %s: %v", fname, r))
+					}
+				}()
+				rep = VerifyFunc(P, DB, P.Funcs[fname], k, prop)
+			}()
+			if saved != nil {
+				DB.Funcs[fname] = saved
+			} else {
+				delete(DB.Funcs, fname)
+			}
+			if rep != nil {
+				// only the lock-discipline obligations count for an implicit contract
+				var keep []*Obligation
+				for _, o := range rep.Obligations {
+					if o.Kind == "guarded" || o.Kind == "vacuity" && !o.Soft {
+						keep = append(keep, o)
+					}
+				}
+				rep.Obligations = keep
+				rep.Func += " (implicit contract)"
+				addRep(rep)
+			}
 		}
 	}
 	for _, name := range sortedKeys(DB.ZeroGlobals) {
@@ -795,6 +857,7 @@ type replayScenario struct {
 	PkgDir string `json:"pkgdir"`
 	Run    string `json:"run"`
 	What   string `json:"what"`
+	Race   bool   `json:"race,omitempty"` // run under the Go race detector
 }
 
 // runReplayFor runs the registered scenario of a failed obligation against the
@@ -811,7 +874,7 @@ func runReplayFor(prop string, r *oblRecord, path string) string {
 		return ""
 	}
 	for _, sc := range scs {
-		if !strings.HasPrefix(r.Name, sc.Match) {
+		if !strings.HasPrefix(r.Name, sc.Match) && !(strings.HasPrefix(sc.Match, "*") && strings.Contains(r.Name, sc.Match[1:])) {
 			continue
 		}
 		out, failed, cmdline := runScenario(sc)
@@ -860,6 +923,9 @@ func runScenarioIn(sc replayScenario, sub string) (output string, failed bool, c
 	ovf := filepath.Join(tmp, "ov.json")
 	os.WriteFile(ovf, ob, 0o644)
 	args := []string{"test", "-overlay", ovf, "-vet=off", "-count=1", "-timeout", "600s", "-v", "-run", "^" + sc.Run + "$", "./" + sc.PkgDir}
+	if sc.Race {
+		args = append(args[:1], append([]string{"-race"}, args[1:]...)...)
+	}
 	cmd := exec.Command("go", args...)
 	cmd.Dir = RepoDir
 	cmd.Env = goEnv()
@@ -1067,6 +1133,52 @@ func cmdReplay(args []string) int {
 		}
 	}
 	return rc
+}
+
+var verifiedImplicit = map[string]bool{}
+
+// guardedOwners: module functions with a load or store through the address of the guarded field.
+func guardedOwners(P *Program, gd *GuardedDecl) []string {
+	var out []string
+	for _, fname := range sortedKeys(P.Funcs) {
+		fn := P.Funcs[fname]
+		if fn.Name() == "init" {
+			continue
+		}
+		found := false
+		for _, b := range fn.Blocks {
+			for _, in := range b.Instrs {
+				fa, ok := in.(*ssa.FieldAddr)
+				if !ok {
+					continue
+				}
+				T := fa.X.Type().Underlying().(*types.Pointer).Elem()
+				sT, ok := structOf(T)
+				if !ok || typeKey(T) != gd.Recv || sT.Field(fa.Field).Name() != gd.Field {
+					continue
+				}
+				if fa.Referrers() == nil {
+					continue
+				}
+				for _, r := range *fa.Referrers() {
+					switch u := r.(type) {
+					case *ssa.Store:
+						if u.Addr == fa {
+							found = true
+						}
+					case *ssa.UnOp:
+						if u.X == fa {
+							found = true
+						}
+					}
+				}
+			}
+		}
+		if found {
+			out = append(out, fname)
+		}
+	}
+	return out
 }
 
 func callSiteOwners(P *Program, cs *CallSitesDecl) []string {
